@@ -57,7 +57,7 @@ func main() {
 			fmt.Fprintf(os.Stderr, "trace: unknown stream %q\n", n)
 			os.Exit(2)
 		}
-		st := runStream(n, fn, &cfg)
+		st := hx.Guarded(func() *hx.Stats { return runStream(n, fn, &cfg) }) // a panic inside the library is a violation, not a dead process
 		st.Emit()
 	}
 }
